@@ -29,6 +29,30 @@ pub struct PairFns {
     pub token_consts: fn() -> Vec<(&'static str, usize)>,
 }
 
+pub struct LexFns {
+    pub lex: fn(&str) -> String,
+    pub describe: fn() -> String,
+}
+
+/// Everything a lexer definition says about its rules and start states.
+pub fn describe_lexerdef(ld: &LRNonStreamingLexerDef<LT>) -> String {
+    let mut s = String::new();
+    for r in ld.iter_rules() {
+        s.push_str(&format!(
+            "rule id={:?} name={:?} re={:?} states={:?} target={:?}\n",
+            r.tok_id(),
+            r.name(),
+            r.re_str(),
+            r.start_states(),
+            r.target_state()
+        ));
+    }
+    for st in ld.iter_start_states() {
+        s.push_str(&format!("state {:?}\n", st));
+    }
+    s
+}
+
 include!(concat!(env!("OUT_DIR"), "/mods.rs"));
 
 pub fn show_lexemes(lexer: &dyn Lexer<LT>) -> String {
@@ -298,6 +322,54 @@ fn main() {
         }
         if nontrivial || p["settings"].as_object().map(|o| !o.is_empty()).unwrap_or(false) {
             bump("nontrivial-pair", &mut classes);
+        }
+    }
+    let build_report0: Value = serde_json::from_str(&std::fs::read_to_string(format!("{here}/gen/build_report.json")).unwrap_or("[]".into())).unwrap_or(json!([]));
+    // lexer-only items: generated lexer module against the run-time definition of the same text
+    for p in spec["lexers"].as_array().cloned().unwrap_or_default() {
+        let id = p["id"].as_u64().unwrap();
+        let lsrc = std::fs::read_to_string(format!("{here}/gen/x{id}.l")).unwrap();
+        let rt = LRNonStreamingLexerDef::<LT>::from_str(&lsrc);
+        let Some(f) = lexer_fns(id) else {
+            bump("lexer-not-built", &mut classes);
+            if rt.is_ok() {
+                let why = build_report0.as_array().and_then(|a| a.iter().find(|b| b["id"].as_u64() == Some(id) && b["lexer_only"] == json!(true))).map(|b| b["error"].clone());
+                mismatches.push(json!({"id": id, "what": "compile-time lexer builder refuses a specification the run-time accepts", "detail": why}));
+            }
+            continue;
+        };
+        let mut rt = match rt {
+            Ok(d) => d,
+            Err(e) => {
+                mismatches.push(json!({"id": id, "what": "run-time lexer construction fails although the compile-time builder accepted the source", "detail": format!("{:?}", e.iter().map(|x| x.to_string()).collect::<Vec<_>>())}));
+                continue;
+            }
+        };
+        let owned: Vec<(String, u32)> = p["ids"].as_array().unwrap().iter().map(|e| (e[0].as_str().unwrap().to_string(), e[1].as_u64().unwrap() as u32)).collect();
+        let map: HashMap<&str, u32> = owned.iter().map(|(k, v)| (k.as_str(), *v)).collect();
+        rt.set_rule_ids(&map);
+        pairs_run += 1;
+        bump("lexer-only", &mut classes);
+        if rt.iter_start_states().count() > 1 {
+            bump("lexer-only:start-states", &mut classes);
+        }
+        comparisons += 1;
+        let (dc, dr) = ((f.describe)(), describe_lexerdef(&rt));
+        if dc != dr {
+            mismatches.push(json!({"id": id, "what": "generated lexer definition differs from the run-time one", "ct": dc, "rt": dr}));
+            continue;
+        }
+        for inp in p["inputs"].as_array().unwrap() {
+            let inp = inp.as_str().unwrap();
+            comparisons += 1;
+            let ct = (f.lex)(inp);
+            let r = show_lexemes(&rt.lexer(inp));
+            if ct != r {
+                mismatches.push(json!({"id": id, "what": "compile-time and run-time lexers differ", "input": inp, "ct": ct, "rt": r, "lexer": lsrc}));
+                break;
+            } else if samples.len() < 8 && ct.split(' ').count() > 3 && rt.iter_start_states().count() > 1 {
+                samples.push(json!({"id": id, "kind": "LexOnly", "lexer": lsrc, "input": inp, "result": ct}));
+            }
         }
     }
     let build_report: Value = serde_json::from_str(&std::fs::read_to_string(format!("{here}/gen/build_report.json")).unwrap_or("[]".into())).unwrap_or(json!([]));
